@@ -895,8 +895,16 @@ func (g *pgen) rloop() {
 		srcs = append(srcs, struct{ path, kind string }{"jso." + a.path, a.kind})
 	}
 	srcs = append(srcs, struct{ path, kind string }{"st.Finance.History", "hist"}, struct{ path, kind string }{"obj.Finance.History", "hist"},
-		struct{ path, kind string }{"jso.missing", "int"}, struct{ path, kind string }{"jso.o.nokey", "int"})
+		struct{ path, kind string }{"jso.missing", "int"}, struct{ path, kind string }{"jso.o.nokey", "int"},
+		struct{ path, kind string }{"jso.grid", "rows"})
 	s := pick(r, srcs)
+	// an array of arrays: the inner loop ranges over the bare loop value
+	for _, x := range g.rangeVals {
+		if x.kind == "rows" && x.name != v && r.chance(2, 3) {
+			s = struct{ path, kind string }{x.name, "int"}
+			g.count("range over a bare loop value (array in an array)")
+		}
+	}
 	if reused {
 		// prefer a source of the other kind (document array <-> struct slice)
 		for try := 0; try < 6 && (s.kind == "hist") == (g.lastKind == "hist"); try++ {
@@ -941,11 +949,18 @@ func (g *pgen) rloop() {
 			args = append(args, v+".id", v)
 		case "hist":
 			args = append(args, v+".DateUnix", v+".Comment")
+		case "rows":
+			args = append(args, v+".0")
 		default:
 			args = append(args, v)
 		}
 	}
 	g.emit("probe(" + strings.Join(args, ", ") + ")")
+	if s.kind == "rows" && form != 2 && g.maxDepth > 0 && r.chance(3, 4) {
+		g.maxDepth--
+		g.rloop()
+		g.maxDepth++
+	}
 	g.block(r.intn(3))
 	if g.opts.signals && r.chance(1, 3) {
 		g.signal()
